@@ -295,7 +295,7 @@ def main(tier, seed_):
     for path in runner.replay_files(ID):
         for f in replay_case(json.load(open(path))["case"], stats):
             stats.fail(f)
-    n_m, steps = (10, 30) if tier == "quick" else (400, 50)
+    n_m, steps = (10, 30) if tier == "quick" else (250, 50)
     res = runner.run_shards(_dispatch, [(shard_run, (n_m, steps, runner.shard_seed(seed_, i, "c12"))) for i in range(runner.NPROC)])
     stats.merge(runner.merge_stats(res))
     return runner.conclude(ID, tier, seed_, stats, RULE, ASSUME, t0, exhaustive=False, shrink=shrink)
